@@ -48,7 +48,7 @@ def pipeline(tier, seed):
     cpath = corpus.write_corpus(os.path.join(wd, "corpus.json"))
     args = ["layout-run", "--seed", seed, "--shards", shards, "--out", os.path.join(wd, "l"), "--descs", descs, "--corpus", cpath]
     args += ["--random", 6000, "--programs", 9000, "--pairs", 1500, "--max-real-bytes", 6000] if thorough else \
-            ["--random", 250, "--programs", 480, "--pairs", 80, "--max-real-bytes", 1200]
+            ["--random", 250, "--programs", 840, "--pairs", 100, "--max-real-bytes", 1200]
     p = harness(args, timeout=3400)
     info = json.loads(p.stdout.strip().splitlines()[-1])
     log(f"[layout] {n} model-enumerated contracts; {info['programs']} programs analysed ({info['analysed_ok']} ok): {info['families']}")
